@@ -418,6 +418,26 @@ m('skiplist-iterator-notfound-includes-smaller-key', ['C17'], SLI, """			// beca
 m('skiplist-find-entry-returns-other-index', ['C17'], SLB, """				return true, node.GetEntry(int(midIdx), key.ValueType()), midIdx
 """, """				return true, node.GetEntry(int(midIdx), key.ValueType()), lowIdx
 """, ['C17-R5 [FindEntryByKey:found-index-is-the-equal-slot'])
+DM = 'lib/storage/disk/disk_manager_impl.go'
+m('redo-newpage-missing-page-not-materialised', ['C01', 'C20'], LR, """				if fetchedPage == nil {
+""", """				if fetchedPage == nil && logRecord.PageID < 0 {
+""", ['C01-R9 [Redo:NewTablePage:missing-page-is-materialised]'])
+m('redo-newpage-always-redo-mode', ['C01', 'C20'], LR, """				newPage.Init(pageID, logRecord.PrevPageID, logRecov.logManager, nil, txn, !isFormatNeeded)
+""", """				newPage.Init(pageID, logRecord.PrevPageID, logRecov.logManager, nil, txn, true)
+""", ['C20-R1 [Redo:NewTablePage:older-page-is-formatted]'])
+m('redo-newpage-always-formats', ['C20', 'C02'], LR, """				newPage.Init(pageID, logRecord.PrevPageID, logRecov.logManager, nil, txn, !isFormatNeeded)
+""", """				newPage.Init(pageID, logRecord.PrevPageID, logRecov.logManager, nil, txn, false)
+""", ['C20-R1 [Redo:NewTablePage:Init-in-redo-mode]'])
+m('redo-newpage-format-not-stamped', ['C20'], LR, """				if isFormatNeeded {
+					newPage.SetLSN(logRecord.GetLSN())
+				}
+""", """""", ['C20-R1 [Redo:NewTablePage:stamp-LSN]'])
+m('redo-newpage-no-relink', ['C01', 'C20'], LR, """					prevPage.SetNextPageID(pageID)
+""", """					_ = prevPage
+""", ['C01-R9 [Redo:NewTablePage:previous-page-relinked]'])
+m('writepage-keeps-nextpageid', ['C01', 'C10'], DM, """		d.nextPageID = pageID + 1
+""", """		_ = pageID
+""", ['C01-R9 [DiskManagerImpl.WritePage:advances-nextPageID]'])
 # drop the one that needs a helper that does not exist
 M = [x for x in M if x['id'] != 'insert-executor-unlocks-early']
 os.chdir(os.path.dirname(os.path.abspath(__file__)) + '/..')
